@@ -65,6 +65,9 @@ type Env struct {
 //	      | conflict<N> (N = 1, 2, ...: a third party writes the ObjectDeployment right before each of the
 //	        next N Update requests of the pass, so each of them is answered 409 Conflict by the optimistic
 //	        locking of the in-memory API; the third-party write adds one annotation and one label)
+//	pause / unpause: the user sets / clears spec.paused of the Package (C09 stream pkgpause)
+//	tp:   a third party edits the ObjectDeployment directly (C09 stream pkgpause): F = odpause | odunpause
+//	      (sets / clears spec.paused of the ObjectDeployment) | oddel (deletes it); no-op when it is absent
 type Op struct {
 	Op    string `json:"op"`
 	F     string `json:"f"`
@@ -73,7 +76,7 @@ type Op struct {
 }
 
 type Scn struct {
-	Mode  string `json:"mode"`  // deploy | ctrl
+	Mode  string `json:"mode"`  // deploy | ctrl | pkgpause (C09: ctrl histories with the pause dimension)
 	Scope string `json:"scope"` // ns | cluster
 	Env   Env    `json:"env"`
 	Uniq  string `json:"uniq"`  // what listing packages with the manifest's label yields: 0 | 1 | 2 | err
@@ -84,6 +87,8 @@ type Scn struct {
 	Pkgs []Pkg  `json:"pkgs"`
 	Spec []int  `json:"spec"` // initial spec: [image, config, component]
 	Ops  []Op   `json:"ops"`
+	// spec.paused of the Package when it is created (mode pkgpause)
+	Paused bool `json:"paused,omitempty"`
 }
 
 // ---------------------------------------------------------------- real inputs
@@ -244,10 +249,16 @@ type Client struct {
 	Pkg     client.Object // stored Package / ClusterPackage (nil = not found)
 	OD      client.Object // stored ObjectDeployment / ClusterObjectDeployment
 	Uniq    string
-	Fault   string   // fault armed for the current pass (consumed by the first call it applies to)
-	Log     []string // OD write requests of the current pass: C, C!, U, U! (error), U~ (answered 409 Conflict)
-	Lists   int      // package List calls (validateUnique)
-	rv      int
+	Fault   string // fault armed for the current pass (consumed by the first call it applies to)
+	// OD write requests of the current pass: C, C!, U, U! (error), U~ (answered 409 Conflict) from the
+	// deployment reconciler; P, P!, P~ = Update requests from anywhere else (the Package controller's own
+	// Update that syncs spec.paused)
+	Log []string
+	// for every accepted P: what the request changed in the stored object: "0" nothing, "p" spec.paused
+	// only, "x" anything else (resourceVersion / generation / managedFields aside)
+	Sync  []string
+	Lists int // package List calls (validateUnique)
+	rv    int
 	// third-party interleaving: number of upcoming ObjectDeployment Update requests a third party
 	// still gets in front of (armed by the fault "conflict<N>"), and third-party writes made so far.
 	conflicts int
@@ -402,12 +413,16 @@ func (c *Client) Create(_ context.Context, obj client.Object, _ ...client.Create
 func (c *Client) Update(_ context.Context, obj client.Object, _ ...client.UpdateOption) error {
 	switch obj.(type) {
 	case *corev1alpha1.ObjectDeployment, *corev1alpha1.ClusterObjectDeployment:
+		u := "U"
+		if !callerHas("DeploymentReconciler") {
+			u = "P"
+		}
 		if c.take("odupdate") {
-			c.Log = append(c.Log, "U!")
+			c.Log = append(c.Log, u+"!")
 			return ErrInjected
 		}
 		if c.OD == nil {
-			c.Log = append(c.Log, "U!")
+			c.Log = append(c.Log, u+"!")
 			return notFound(obj, client.ObjectKeyFromObject(obj))
 		}
 		if n := ConflictCount(c.Fault); n > 0 {
@@ -421,18 +436,86 @@ func (c *Client) Update(_ context.Context, obj client.Object, _ ...client.Update
 		// optimistic locking, as the real API server does it: a write based on a stale
 		// resourceVersion is refused with 409 Conflict and changes nothing.
 		if rv := obj.GetResourceVersion(); rv != "" && rv != c.OD.GetResourceVersion() {
-			c.Log = append(c.Log, "U~")
+			c.Log = append(c.Log, u+"~")
 			return apierrors.NewConflict(
 				schema.GroupResource{Group: "package-operator.run", Resource: "objectdeployments"}, obj.GetName(),
 				errors.New("the object has been modified; please apply your changes to the latest version and try again"))
 		}
+		if u == "P" {
+			c.Sync = append(c.Sync, updateDiff(c.OD, obj))
+		}
 		obj.SetResourceVersion(c.nextRV())
 		obj.SetGeneration(obj.GetGeneration() + 1)
 		c.OD = obj.DeepCopyObject().(client.Object)
-		c.Log = append(c.Log, "U")
+		c.Log = append(c.Log, u)
 		return nil
 	}
 	panic(fmt.Sprintf("verifc16: unexpected Update %T", obj))
+}
+
+// ODPaused is spec.paused of an ObjectDeployment / ClusterObjectDeployment.
+func ODPaused(od client.Object) bool {
+	switch o := od.(type) {
+	case *corev1alpha1.ObjectDeployment:
+		return o.Spec.Paused
+	case *corev1alpha1.ClusterObjectDeployment:
+		return o.Spec.Paused
+	}
+	panic(fmt.Sprintf("verifc16: ODPaused %T", od))
+}
+
+// SetODPaused sets spec.paused of an ObjectDeployment / ClusterObjectDeployment.
+func SetODPaused(od client.Object, v bool) {
+	switch o := od.(type) {
+	case *corev1alpha1.ObjectDeployment:
+		o.Spec.Paused = v
+	case *corev1alpha1.ClusterObjectDeployment:
+		o.Spec.Paused = v
+	default:
+		panic(fmt.Sprintf("verifc16: SetODPaused %T", od))
+	}
+}
+
+// updateDiff classifies what an Update request changes in the stored object.
+func updateDiff(stored, req client.Object) string {
+	a := stored.DeepCopyObject().(client.Object)
+	b := req.DeepCopyObject().(client.Object)
+	for _, o := range []client.Object{a, b} {
+		o.SetResourceVersion("")
+		o.SetGeneration(0)
+		o.SetManagedFields(nil)
+	}
+	if reflect.DeepEqual(a, b) {
+		return "0"
+	}
+	SetODPaused(a, false)
+	SetODPaused(b, false)
+	if reflect.DeepEqual(a, b) {
+		return "p"
+	}
+	return "x"
+}
+
+// ResetPass clears what is recorded or armed per pass.
+func (c *Client) ResetPass() {
+	c.Fault, c.Log, c.Sync, c.conflicts = "", nil, nil, 0
+}
+
+// ThirdParty is somebody else editing the ObjectDeployment between two passes (Op "tp").
+func (c *Client) ThirdParty(f string) bool {
+	switch f {
+	case "odpause", "odunpause":
+		if c.OD != nil {
+			SetODPaused(c.OD, f == "odpause")
+			c.OD.SetResourceVersion(c.nextRV())
+			c.OD.SetGeneration(c.OD.GetGeneration() + 1)
+		}
+	case "oddel":
+		c.OD = nil
+	default:
+		return false
+	}
+	return true
 }
 
 func (c *Client) List(_ context.Context, list client.ObjectList, _ ...client.ListOption) error {
